@@ -215,12 +215,12 @@ Example ex_bad_created :
              = (s', Err EInvalidDateTime) /\ length (s_events s') = 1%nat.
 Proof. vm_compute. repeat split; try reflexivity. eexists; split; reflexivity. Qed.
 
-(* what time.Parse(RFC3339) takes and refuses, as the recogniser sees it *)
+(* what the created validation takes and refuses, as the recogniser sees it *)
 Example ex_times :
   rfc3339_ok (b "2006-01-02T15:04:05Z") = true /\
   rfc3339_ok (b "2024-02-29T23:59:59.5+07:30") = true /\
-  rfc3339_ok (b "2006-01-02T1:04:05Z") = true /\        (* documented leniency of time.Parse *)
-  rfc3339_ok (b "2006-01-02T15:04:05,5+24:60") = true /\ (* idem *)
+  rfc3339_ok (b "2006-01-02T1:04:05Z") = false /\        (* taken by time.Parse, not RFC 3339 *)
+  rfc3339_ok (b "2006-01-02T15:04:05,5+24:60") = false /\ (* idem *)
   rfc3339_ok (b "2006-01-02t15:04:05z") = false /\
   rfc3339_ok (b "2006-01-02T15:04:60Z") = false /\
   rfc3339_ok (b "1900-02-29T00:00:00Z") = false /\
